@@ -7,7 +7,7 @@ from ..gen import histories as H, sqlite_factory as F, walreader as W
 from . import dbcommon as C
 
 ID = "C02"
-LEAN_MODULES = ["SqliteDissect.Properties.C02Rows", "SqliteDissect.Properties.C02Content", "SqliteDissect.Properties.C02", "SqliteDissect.Properties.C02b", "SqliteDissect.Properties.C16"]
+LEAN_MODULES = ["SqliteDissect.Properties.C02Rows", "SqliteDissect.Properties.C02Content", "SqliteDissect.Properties.C02", "SqliteDissect.Properties.C02b", "SqliteDissect.Properties.C16", "SqliteDissect.Properties.C02Schema"]
 RULE = ("WAL histories made by SQLite 3.40.1 (inserts, updates incl. same-size in-place overflow updates, deletes, "
         "DDL, header pragmas, cache-spilling transactions, passive checkpoint, checkpoint + restart leaving stale "
         "frames, auto-vacuum shrink); db + wal copied with the log intact; VersionHistory dumped by implementation "
